@@ -52,7 +52,7 @@ static void do_init(void) {
 
 static void run_case(int n, char **lines) {
   static unsigned char buf[70000];
-  alarm(20);   /* a hang of the code under test ends this case as `crash sig=14` instead of stalling the batch */
+  alarm(5);    /* a hang of the code under test ends this case as `crash sig=14` instead of stalling the batch */
   v_quiet = 1; v_on_sent = on_sent;
   memset(&supla_esp_cfg, 0, sizeof supla_esp_cfg);
   strcpy(supla_esp_cfg.Server, "10.0.0.1"); supla_esp_cfg.Port = 1883;
